@@ -19,6 +19,15 @@ Requests (after the `C16` token):
   `ok w=<ok|kind> img=<tree|N> r=<ok|kind|-> out=<tree|->`
 * `fits basis new|old <tree>` — the same for mode bases
 * `ravel [shape] [index]`, `unravel [shape] k`
+* `dict gridold <tree>` — `Grid.from_dict` with the unrepaired registry (D161)
+* `getstate field c|f <tree>` — `Field.__getstate__()` for a C- or Fortran-ordered data array:
+  `ok shape=[…] dtype=<dt> fortran=<T|F> raw=<arr>` (`raw` = the bytes decoded with the dtype)
+* `todict-st grid|field|basis good|bad <tree>` — `to_dict` and the FITS writer as programs over the
+  object (`toDictM`, `write…M`; `bad` = the variant reading the property `weights`):
+  `ok before=<N|S> after=<N|S> tree=<tree|err> wafter=<N|S> w=<ok|kind>` where `N`/`S` say whether the
+  grid's `_weights` is `None` or set
+* `file grid asdf|fits new|old <tree>`, `file field|basis asdf new <tree>` — the grid-file / ASDF
+  layer with `AsdfLib.observed`: `ok w=<ok|kind> file=<tree|-> r=<ok|kind|-> out=<tree|->`
 -/
 namespace HcipyVerif.Driver.C16
 open HcipyVerif.Proto HcipyVerif.Serial
@@ -199,7 +208,128 @@ def pickleRT (bad : Bool) (l : Layout) (f : Field) : Field :=
     { fr with values := { fr.values with data := interleave fr.values.data fi.values.data } }
   else go f
 
+/-- `Field.__getstate__()`; complex data as a pair of real arrays of the same layout -/
+def getStateShown (l : Layout) (f : Field) : String :=
+  let raw :=
+    if f.values.dtype.startsWith "c" then
+      let (re, im) := deinterleave f.values.data
+      let sr := Field.getState { f with values := { f.values with data := re } } l
+      let si := Field.getState { f with values := { f.values with data := im } } l
+      interleave sr.raw si.raw
+    else (f.getState l).raw
+  let s := f.getState l
+  let n := if f.values.dtype.startsWith "c" then raw.length / 2 else raw.length
+  "ok shape=" ++ showNatList s.shape ++ " dtype=" ++ s.dtype ++ " fortran=" ++
+    (if s.isFortran then "T" else "F") ++ " raw=" ++ showArr ⟨s.dtype, [n], raw⟩
+
+def parseLayout? (s : String) : Option Layout :=
+  if s == "c" then some .c else if s == "f" then some .f else none
+
+def nullFlag (g : Option Grid) : String :=
+  match g with
+  | some g => if g.weights.isNull then "N" else "S"
+  | none => "-"
+
+/-- the wire decoder of grids: any coordinate-system name (the registry is what is under test) -/
+def decodeGrid (t : Tree) : Except Err Grid := Grid.fromDictWith (fun _ => true) t
+
+def stAnswer {α} (before after wafter : Option Grid) (tree : Except Err Tree)
+    (w : Except Err α) : String :=
+  let tr := match tree with
+    | .ok t => showTree t
+    | .error e => "err:" ++ showErr e
+  s!"ok before={nullFlag before} after={nullFlag after} tree={tr} wafter={nullFlag wafter} w={status w}"
+
+def fileAnswer {α} (w : Except Err Tree) (rd : Tree → Except Err α) (td : α → Except Err Tree) :
+    String :=
+  match w with
+  | .error e => s!"ok w={showErr e} file=- r=- out=-"
+  | .ok ft =>
+    let r := rd ft
+    let out := match r with
+      | .ok x => match td x with
+        | .ok t => showTree t
+        | .error e => "toDict:" ++ showErr e
+      | .error _ => "-"
+    s!"ok w=ok file={showTree ft} r={status r} out={out}"
+
 def step (st : St) : List String → St × String
+  | ["dict", "gridold", t] =>
+    match parseTree? t with
+    | some t => (st, answer ((Grid.fromDictOld t).map Grid.toDict))
+    | none => (st, "bad-op")
+  | ["getstate", "field", lay, t] =>
+    match parseTree? t, parseLayout? lay with
+    | some t, some l =>
+      match Field.fromDict t with
+      | .ok f => (st, getStateShown l f)
+      | .error e => (st, "err " ++ showErr e)
+    | _, _ => (st, "bad-op")
+  | ["todict-st", what, which, t] =>
+    let gd? : Option (StateM Grid Tree) :=
+      if which == "good" then some Grid.toDictM
+      else if which == "bad" then some (Grid.toDictMBad fun _ => .null) else none
+    match parseTree? t, gd? with
+    | some t, some gd =>
+      if what == "grid" then
+        match decodeGrid t with
+        | .ok g =>
+          let (tree, g1) := gd.run g
+          let (w, g2) := (writeGridM gd AsdfLib.observed).run g1
+          (st, stAnswer (some g) (some g1) (some g2) (.ok tree) w)
+        | .error e => (st, "err " ++ showErr e)
+      else if what == "field" then
+        match Field.fromDict t with
+        | .ok f =>
+          let (tree, f1) := (Field.toDictMWith gd).run f
+          let (w, f2) := (writeFieldFitsM gd).run f1
+          (st, stAnswer (some f.grid) (some f1.grid) (some f2.grid) (.ok tree) w)
+        | .error e => (st, "err " ++ showErr e)
+      else if what == "basis" then
+        match ModeBasis.fromDict t with
+        | .ok b =>
+          let (tree, b1) := (ModeBasis.toDictMWith gd).run b
+          let (w, b2) := (writeBasisFitsM gd).run b1
+          (st, stAnswer b.grid b1.grid b2.grid tree w)
+        | .error e => (st, "err " ++ showErr e)
+      else (st, "bad-op")
+    | _, _ => (st, "bad-op")
+  | ["file", "grid", fmt, which, t] =>
+    match parseTree? t with
+    | some t =>
+      match decodeGrid t with
+      | .ok g =>
+        if fmt == "asdf" && which == "new" then
+          (st, fileAnswer ((writeGridAsdf AsdfLib.observed g).map (·.tree))
+            (fun ft => readGridAsdf ⟨ft⟩) (fun x => .ok x.toDict))
+        else if fmt == "asdf" && which == "old" then
+          (st, fileAnswer ((writeGridAsdf AsdfLib.observed g).map (·.tree))
+            (fun ft => readGridAsdfOld ⟨ft⟩) (fun x => .ok x.toDict))
+        else if fmt == "fits" && which == "new" then
+          (st, fileAnswer ((writeGridFits AsdfLib.observed g).map (·.tree))
+            (fun ft => readGridFits ⟨none, ft⟩) (fun x => .ok x.toDict))
+        else if fmt == "fits" && which == "old" then
+          (st, fileAnswer ((writeGridFits AsdfLib.observed g).map (·.tree))
+            (fun ft => readGridFitsOld ⟨none, ft⟩) (fun x => .ok x.toDict))
+        else (st, "bad-op")
+      | .error e => (st, "err " ++ showErr e)
+    | none => (st, "bad-op")
+  | ["file", "field", "asdf", "new", t] =>
+    match parseTree? t with
+    | some t =>
+      match Field.fromDict t with
+      | .ok f => (st, fileAnswer ((writeFieldAsdf AsdfLib.observed f).map (·.tree))
+          (fun ft => readFieldAsdf ⟨ft⟩) (fun x => .ok x.toDict))
+      | .error e => (st, "err " ++ showErr e)
+    | none => (st, "bad-op")
+  | ["file", "basis", "asdf", "new", t] =>
+    match parseTree? t with
+    | some t =>
+      match ModeBasis.fromDict t with
+      | .ok b => (st, fileAnswer ((writeBasisAsdf AsdfLib.observed b).map (·.tree))
+          (fun ft => readBasisAsdf ⟨ft⟩) ModeBasis.toDict)
+      | .error e => (st, "err " ++ showErr e)
+    | none => (st, "bad-op")
   | ["dict", "coords", t] =>
     match parseTree? t with
     | some t => (st, answer ((Coords.fromDict t).map Coords.toDict))
